@@ -47,6 +47,11 @@ def check(repo, res, tier):
     res.rule('C07.B10', 'adopted C16.K2: the rate limit the hot tier enforces is the configured one times the unit factor '
                         '(a limit rounded up accepts ingest above the maximum)')
     _b16(repo, res, tier, _c16, {'C16.K2'}, 'C07.B10')
+    from . import c04 as _c04
+    res.rule('C07.B11', 'adopted C04.T14: the scheduler actor lives for the whole run and asks the buffer for a ready observation in '
+                        'every round (an observation it never picks up keeps its data in the hot tier for ever: the buffers do not '
+                        'return to full free capacity)')
+    _b16(repo, res, tier, _c04, {'C04.T14'}, 'C07.B11')
     from . import initial
     res.rule('C07.B9', 'initial state: an observation holds no data, nothing is pending between the tiers')
     initial.check_values(repo, res, 'C07.B9', [('Observation', 'total_data_size', 0), ('Buffer', '_data_left_to_transfer', 0)],
@@ -70,8 +75,8 @@ def check(repo, res, tier):
     # B7: tier moves change the hot tier's free space too -- their mirror arithmetic is C18's
     from . import c18
     from .common import borrow
-    res.rule('C07.B7', 'tier moves keep used space = resident data: C18.V1/V3 (same rate, mirror arithmetic) adopted')
-    borrow(repo, res, tier, c18, {'C18.V1', 'C18.V3'}, 'C07.B7')
+    res.rule('C07.B7', 'tier moves keep used space = resident data: C18.V1/V3 (same rate, mirror arithmetic), V4 (the receiver files the observation it was handed) and V5 (a refused move leaves both tiers as they were) adopted')
+    borrow(repo, res, tier, c18, {'C18.V1', 'C18.V3', 'C18.V4', 'C18.V5'}, 'C07.B7')
     # B8: the ingest loop runs while the observation is RUNNING; it may be marked FINISHED only at ast + duration
     g = repo.func('Observation.is_finished')
     outs = outcomes(logic, g)
